@@ -424,3 +424,58 @@ func (o *Once) Do(f func()) {
 	}
 	o.m.Unlock()
 }
+
+// Pool is the simulated sync.Pool. The real one hands out per-P cached objects and is
+// emptied by the garbage collector - nondeterminism the simulator does not control - so a
+// run that depends on WHICH pooled object it gets would not replay. This one is a LIFO
+// stack; occasionally (fault/environment stream) a Get finds the pool "collected" and
+// falls back to New, as the real pool may at any time.
+type Pool struct {
+	New   func() interface{}
+	items []interface{}
+	real  sync.Pool
+}
+
+//go:norace
+func (p *Pool) Get() interface{} {
+	s := S
+	if s == nil || s.over {
+		if x := p.real.Get(); x != nil {
+			return x
+		}
+		if p.New != nil {
+			return p.New()
+		}
+		return nil
+	}
+	s.yield(-1, true)
+	if len(p.items) > 0 && s.streams[StF].chance(1, 8) {
+		p.items = p.items[:0] // the collector emptied the pool
+		s.Probes["pool_collected"]++
+	}
+	if n := len(p.items); n > 0 {
+		x := p.items[n-1]
+		p.items = p.items[:n-1]
+		raceAcquire(p)
+		return x
+	}
+	if p.New != nil {
+		return p.New()
+	}
+	return nil
+}
+
+//go:norace
+func (p *Pool) Put(x interface{}) {
+	s := S
+	if s == nil || s.over {
+		p.real.Put(x)
+		return
+	}
+	if x == nil {
+		return
+	}
+	raceReleaseMerge(p)
+	p.items = append(p.items, x)
+	s.yield(-1, true)
+}
